@@ -250,9 +250,10 @@ fn render_faults() -> Vec<Fault> {
     vec![
         f("undef-var", "{{ nope }}", "nope", "render"),
         f("undef-var-path", "{{ nope.a.b }}", "nope", "render"),
-        f("field-of-undefined", "{{ m.q.x }}", "m.q", "render"),
-        f("field-of-undefined-deep", "{{ obj.f.q.r.s }}", "obj.f.q", "render"),
-        f("field-of-undefined-nofuse", "{{ (m).q.x }}", "(m).q", "render"),
+        f("field-of-undefined", "{{ m.q.x }}", "q", "render"),
+        f("field-of-undefined-deep", "{{ obj.f.q.r.s }}", "q", "render"),
+        f("field-of-undefined-last", "{{ obj.f.g.r.s }}", "r", "render"),
+        f("field-of-undefined-nofuse", "{{ strs[0].q.x }}", "q", "render"),
         f("undef-in-plus", "{{ 1 + nope }}", "nope", "render"),
         f("math-on-string", "{{ s * 2 }}", "s", "render"),
         f("math-on-string-rhs", "{{ 2 - s }}", "s", "render"),
@@ -315,7 +316,7 @@ fn render_faults() -> Vec<Fault> {
         f("ml-cmp", "{{ s\n<\nn }}", "s\n<\nn", "render"),
         f("mb-string-before", "{{ \"日本😀é\" ~ nope.x }}", "nope", "render"),
         f("mb-string-cmp", "{{ \"é\" < 1 }}", "\"é\" < 1", "render"),
-        f("opt-chain", "{{ m?.q.x.y }}", "m?.q.x", "render"),
+        f("opt-chain", "{{ m?.q.x.y }}", "q", "render"),
         f("ws-control", "{{- nope -}}", "nope", "render"),
         f("tab-before", "\t{{\tnope\t}}", "nope", "render"),
     ]
@@ -1005,6 +1006,16 @@ impl<'a> Run<'a> {
                         | "In" | "BuildList" | "BuildListWithSpreads" | "Include" => 1,
                         _ => 0,
                     };
+                    // fused paths: element k reports the span of the k-th identifier of the path:
+                    // disjoint and in source order
+                    if matches!(ins.op, "LoadPath" | "WritePath") {
+                        self.meta.oracle_checks += 1;
+                        let ordered = spans.windows(2).all(|w| w[0].range.end <= w[1].range.start);
+                        if !ordered {
+                            self.meta.oracle_fail(&format!("spans of fused instruction {k} ({}) of chunk {} are not in path order", ins.op, cl.id),
+                                None, json!({"source": src, "label": label, "spans": spans.iter().map(json_span).collect::<Vec<_>>()}));
+                        }
+                    }
                     self.meta.oracle_checks += 1;
                     if spans.len() < need {
                         self.meta.oracle_fail(&format!("instruction {k} ({}) of chunk {} carries {} spans, its error paths need {need}", ins.op, cl.id, spans.len()),
